@@ -98,6 +98,9 @@ class Axis:
 
         return False
 
+    def reset_grading(self) -> None:
+        self.wires.reset()
+
     def grade(self) -> None:
         self.wires.grade()
 
